@@ -185,6 +185,7 @@ def cases_basic(tier):
 def scn_basic(T, case):
     stored = types.SimpleNamespace(evaluations=types.SimpleNamespace(variables=np.array([1.0, 2.0]))) if case["has"] else None
     log = []
+    current = lambda: stored  # noqa: E731  (what the tracker holds at the moment)
 
     class FakePlan:
         def __init__(self, ctx):
@@ -220,7 +221,7 @@ def scn_basic(T, case):
 
         def get(self, id_, key):
             log.append(("get", id_, key))
-            return stored
+            return current()
 
     if T.symbolic:
         sh = T.shadow([MB], stubs={(MB, "Plan"): FakePlan})
@@ -234,10 +235,18 @@ def scn_basic(T, case):
         real.Plan = FakePlan
         cls = real.BasicOptimizer
     try:
-        bo = object.__new__(cls)
-        bo._config, bo._transforms, bo._constraint_tolerance, bo._kwargs, bo._observers = {}, None, 1e-10, {}, []
-        bo._optimizer_context = types.SimpleNamespace(add_observer=lambda *a: None)
+        # made by its real constructor; run twice (the second run of the same object tracks nothing, or something else)
+        bo = cls({"variables": {"initial_values": [0.0]}}, lambda x, c: None, constraint_tolerance=1e-10)
         bo.run()
+        first = (bo.results, bo.variables, bo.exit_code)
+        first_stored = stored
+        stored = types.SimpleNamespace(evaluations=types.SimpleNamespace(variables=np.array([3.0, 4.0]))) if not case["has"] else None
+        log_first = list(log)
+        bo.run()
+        T.prove("C12.basic_optimizer.second_run_of_the_same_object_reports_what_THAT_run_tracked",
+                bo.results is stored and ((bo.variables is None) if stored is None else (bo.variables is stored.evaluations.variables)) and bo.exit_code == "EXIT")
+        stored, log[:] = first_stored, log_first
+        bo._results = type(bo._results)(*first)
     finally:
         if restore:
             restore[0].Plan = restore[1]
